@@ -159,3 +159,69 @@ func verifMapShape(m reflect.Value, depth int) string {
 	sort.Strings(ks)
 	return "{" + strings.Join(ks, ",") + "}"
 }
+
+// VerifRegistryOrder renders the ids of the subscription and binding entries in the order the registries hold them,
+// as ranks (for a counter that only grows this is always 0,1,2,...: it adds nothing to a state key).
+//
+//go:norace
+func VerifRegistryOrder(l api.DeviceLocalInterface) string {
+	rank := func(ids []uint64) string {
+		s := append([]uint64{}, ids...)
+		sort.Slice(s, func(i, j int) bool { return s[i] < s[j] })
+		r := map[uint64]int{}
+		for i, id := range s {
+			if _, ok := r[id]; !ok {
+				r[id] = i
+			}
+		}
+		out := ""
+		for _, id := range ids {
+			out += fmt.Sprint(r[id], ",")
+		}
+		return out
+	}
+	var si, bi []uint64
+	if sm, ok := l.SubscriptionManager().(*SubscriptionManager); ok {
+		for _, e := range sm.subscriptionEntries {
+			si = append(si, e.Id)
+		}
+	}
+	if bm, ok := l.BindingManager().(*BindingManager); ok {
+		for _, e := range bm.bindingEntries {
+			bi = append(bi, e.Id)
+		}
+	}
+	return "s[" + rank(si) + "] b[" + rank(bi) + "]"
+}
+
+// VerifRegistryIds renders the absolute ids of the subscription and binding entries in registry order (for drivers
+// that bound the depth instead of closing the state space).
+//
+//go:norace
+func VerifRegistryIds(l api.DeviceLocalInterface) string {
+	out := "s"
+	if sm, ok := l.SubscriptionManager().(*SubscriptionManager); ok {
+		for _, e := range sm.subscriptionEntries {
+			out += fmt.Sprint(",", e.Id, ":", e.ClientFeature.Device().Ski(), verifAddr(e.ClientFeature.Address()), ">", verifAddr(e.ServerFeature.Address()))
+		}
+	}
+	out += " b"
+	if bm, ok := l.BindingManager().(*BindingManager); ok {
+		for _, e := range bm.bindingEntries {
+			out += fmt.Sprint(",", e.Id, ":", e.ClientFeature.Device().Ski(), verifAddr(e.ClientFeature.Address()), ">", verifAddr(e.ServerFeature.Address()))
+		}
+	}
+	// every unsigned integer field of the two managers (the counters the ids come from, whatever they are called)
+	for _, m := range []any{l.SubscriptionManager(), l.BindingManager()} {
+		v := reflect.ValueOf(m)
+		if v.Kind() != reflect.Ptr || v.IsNil() || v.Elem().Kind() != reflect.Struct {
+			continue
+		}
+		for i := 0; i < v.Elem().NumField(); i++ {
+			if f := v.Elem().Field(i); f.Kind() == reflect.Uint64 || f.Kind() == reflect.Uint {
+				out += fmt.Sprintf(" %s=%d", v.Elem().Type().Field(i).Name, f.Uint())
+			}
+		}
+	}
+	return out
+}
